@@ -70,6 +70,10 @@ func (e *Engine) invoke(st *State, fv Value, args []Value, retTo *ssa.Call, isDe
 	}
 	if fn.Fn == nil {
 		if len(fn.Env) == 1 {
+			if o, ok := fn.Env[0].(OpaqueV); ok && strings.HasPrefix(o.Tag, "opaque-method:cancelctx:") {
+				e.cancelCtx(st, o.Tag)
+				return
+			}
 			if o, ok := fn.Env[0].(OpaqueV); ok && strings.HasPrefix(o.Tag, "opaque-method:") {
 				if retTo != nil {
 					setRes(opaqueResult(retTo.Type(), o.Tag))
